@@ -93,7 +93,7 @@ Section MovingChoice.
   Hypothesis Hnew : f_new (c_filter cfg) = true.
   Hypothesis Hundo : f_undo (c_filter cfg) = true.
 
-  Hypothesis U_id : forall b, In b U -> bid b <> 0 /\ bparent b <> 0 /\ bid b <> bparent b.
+  Hypothesis U_id : forall b, In b U -> bid b <> 0 /\ bid b <> bparent b.
   Hypothesis U_uniq : forall x y, In x U -> In y U -> bid x = bid y -> x = y.
   Hypothesis U_up : forall x y, In x U -> In y U -> bparent x = bid y -> bnum y < bnum x.
   Hypothesis L_id : ri r0 <> 0.
@@ -512,7 +512,7 @@ Section MovingChoice.
       assert (x = b) by (apply U_uniq; [apply (fr_inU _ _ _ _ HR); exact Hx | exact Hb | exact Hid]). subst x.
       destruct (fr_known _ _ _ _ HR b Hx) as [H|H]; [|congruence].
       apply find_is_some_in in H as [e He].
-      exact (fk_step_old' U cfg U_id U_uniq s b e (di_inU U r0 _ Hdb) Hb He (di_wf U r0 U_id U_up _ Hdb) Hni).
+      exact (fk_step_old' U r0 cfg U_id U_uniq U_up s b e Hdb Hb He Hni).
     - match goal with |- (if ?c then _ else _) = _ -> _ => destruct c end.
       + destruct (ancestor_at _ _ _ _) as [a|]; [destruct (rn (fc_lib fc) <? bnum a)|]; apply G; reflexivity.
       + apply G. reflexivity.
